@@ -135,6 +135,71 @@ Definition mpi_pow_int (s : mpi) (n prec : Z) : res mpi :=
   if 0 <? n then mpi_pow_int_pos s n prec else
   do w <- mpi_pow_int_pos s (- n) (prec + 20); mpi_div mpi_one w prec.
 
+(* _mpi_outward(f, x, prec, rounding): v = f(x, prec+20, rounding) is an input of the model (the elementary function is not
+   modelled); the value is moved outward by a factor 1 +- 2^(10-wp) before the final directed rounding *)
+Definition mpi_outward (v : mpf) (prec : Z) (r : rnd) : mpf :=
+  let wp := prec + 20 in
+  if mman v =? 0 then v else
+  let p := if Bool.eqb (negb (msign v =? 0)) (rnd_eqb r RF)
+           then from_man_exp (Z.shiftl 1 wp + Z.shiftl 1 10) (- wp) 0 RD
+           else from_man_exp (Z.shiftl 1 wp - Z.shiftl 1 10) (- wp) 0 RD in
+  mpf_mul v p prec r.
+(* mpi_exp / mpi_log from the point values va = mpf_exp(sa, prec+20, 'f'), vb = mpf_exp(sb, prec+20, 'c') *)
+Definition mpi_exp_from (s : mpi) (va vb : mpf) (prec : Z) : mpi :=
+  ((if mpf_eqb (fst s) fzero then fone else mpi_outward va prec RF),
+   (if mpf_eqb (snd s) fzero then fone else mpi_outward vb prec RC)).
+Definition mpi_log_from (va vb : mpf) (prec : Z) : mpi := (mpi_outward va prec RF, mpi_outward vb prec RC).
+
+(* mpi_cos_sin(x, prec) from the two values of cos_sin_quadrant at the end points (working precision prec + 20):
+   qa = (cos a, sin a, na), qb = (cos b, sin b, nb) with n the index of the quadrant [n pi/2, (n+1) pi/2] holding the point.
+   These are inputs of the model (mpf_cos_sin and mod_pi2 are not modelled). *)
+Definition mpi_finalize (v : mpf) (prec : Z) (r : rnd) : mpf :=
+  let wp := prec + 20 in
+  let p := if Bool.eqb (negb (msign v =? 0)) (rnd_eqb r RF)
+           then from_man_exp (Z.shiftl 1 wp + Z.shiftl 1 10) (- wp) 0 RD
+           else from_man_exp (Z.shiftl 1 wp - Z.shiftl 1 10) (- wp) 0 RD in
+  let w := mpf_mul v p prec r in
+  if 1 <=? mexp w + mbc w then (if negb (msign w =? 0) then fnone else fone) else w.
+
+Definition mpi_full : mpi := (fnone, fone).
+
+Definition mpi_cos_sin_from (x : mpi) (qa qb : mpf * mpf * Z) (prec : Z) : mpi * mpi :=
+  let '(a, b) := x in
+  if mpf_eqb a fzero && mpf_eqb b fzero then ((fone, fone), (fzero, fzero)) else
+  if mpf_eqb a finf || mpf_eqb b finf || mpf_eqb a fninf || mpf_eqb b fninf then (mpi_full, mpi_full) else
+  let '(ca, sa, na) := qa in
+  let '(cb, sb, nb) := qb in
+  let '(ca, cb) := mpf_min_max [ca; cb] in
+  let '(sa, sb) := mpf_min_max [sa; sb] in
+  if negb (na =? nb) && (4 <=? nb - na) then (mpi_full, mpi_full) else
+  let same := na =? nb in
+  let cb := if negb same && negb (na / 4 =? nb / 4) then fone else cb in
+  let ca := if negb same && negb ((na - 2) / 4 =? (nb - 2) / 4) then fnone else ca in
+  let sb := if negb same && negb ((na - 1) / 4 =? (nb - 1) / 4) then fone else sb in
+  let sa := if negb same && negb ((na - 3) / 4 =? (nb - 3) / 4) then fnone else sa in
+  ((mpi_finalize ca prec RF, mpi_finalize cb prec RC), (mpi_finalize sa prec RF, mpi_finalize sb prec RC)).
+
+(* mpi_tan / mpi_cot: cos, sin = mpi_cos_sin(x, prec + 20); mpi_div(sin, cos, prec) (resp. cos / sin) *)
+Definition mpi_tan_from (x : mpi) (qa qb : mpf * mpf * Z) (prec : Z) : res mpi :=
+  let '(c, s) := mpi_cos_sin_from x qa qb (prec + 20) in mpi_div s c prec.
+Definition mpi_cot_from (x : mpi) (qa qb : mpf * mpf * Z) (prec : Z) : res mpi :=
+  let '(c, s) := mpi_cos_sin_from x qa qb (prec + 20) in mpi_div c s prec.
+
+(* mpi_pow(s, t, prec), general branch (t not a point integer / one half): exp(t * log s).
+   la, lb = mpf_log at the end points of s (working precision prec + 40), ea, eb = mpf_exp at the end points of the
+   product interval (working precision prec + 20): inputs of the model *)
+Definition mpi_pow_v (t : mpi) (la lb : mpf) (prec : Z) : mpi :=
+  mpi_mul (mpi_log_from la lb (prec + 20)) t (prec + 20).
+Definition mpi_pow_from (t : mpi) (la lb ea eb : mpf) (prec : Z) : mpi :=
+  mpi_exp_from (mpi_pow_v t la lb prec) ea eb prec.
+
+(* mpi_cosh_sinh(x, prec) from va, vb = mpf_exp at the end points of x (working precision prec + 40) *)
+Definition mpi_cosh_sinh_from (x : mpi) (va vb : mpf) (prec : Z) : res (mpi * mpi) :=
+  let wp := prec + 20 in
+  let e1 := mpi_exp_from x va vb wp in
+  do e2 <- mpi_div mpi_one e1 wp;
+  Ok (mpi_shift (mpi_add e1 e2 prec) (-1), mpi_shift (mpi_sub e1 e2 prec) (-1)).
+
 (* ---- complex intervals ---- *)
 Definition mpci := (mpi * mpi)%type.
 Definition mpci_add (x y : mpci) (prec : Z) : mpci := (mpi_add (fst x) (fst y) prec, mpi_add (snd x) (snd y) prec).
@@ -173,3 +238,32 @@ Definition mpci_pow_int (x : mpci) (n prec : Z) : res mpci :=
   | Zpos p => Ok (mpci_pow_int_pos x p prec)
   | Zneg p => mpci_div (mpi_one, mpi_zero) (mpci_pow_int_pos x p (prec + 20)) prec
   end.
+
+(* mpci_abs(x, prec) *)
+Definition mpci_abs (x : mpci) (prec : Z) : res mpi :=
+  let '(a, b) := x in
+  if mpi_eq a mpi_zero then Ok (mpi_abs b 0) else
+  if mpi_eq b mpi_zero then Ok (mpi_abs a 0) else
+  mpi_sqrt (mpi_add (mpi_square a 0) (mpi_square b 0) (prec + 20)) prec.
+
+(* mpci_exp(x, prec) from the exp values at the end points of the real part and the quadrant values at the end points of
+   the imaginary part (working precision prec + 40) *)
+Definition mpci_exp_from (x : mpci) (va vb : mpf) (qa qb : mpf * mpf * Z) (prec : Z) : mpci :=
+  let wp := prec + 20 in
+  let r := mpi_exp_from (fst x) va vb wp in
+  let '(c, s) := mpi_cos_sin_from (snd x) qa qb wp in
+  (mpi_mul r c prec, mpi_mul r s prec).
+
+(* mpci_cos / mpci_sin (x = a + i b, working precision prec + 10) from the quadrant values of a and the exp values of b *)
+Definition mpci_cos_from (x : mpci) (qa qb : mpf * mpf * Z) (va vb : mpf) (prec : Z) : res mpci :=
+  let wp := prec + 10 in
+  let '(c, s) := mpi_cos_sin_from (fst x) qa qb wp in
+  do chsh <- mpi_cosh_sinh_from (snd x) va vb wp;
+  let '(ch, sh) := chsh in
+  Ok (mpi_mul c ch prec, mpi_neg (mpi_mul s sh prec) 0).
+Definition mpci_sin_from (x : mpci) (qa qb : mpf * mpf * Z) (va vb : mpf) (prec : Z) : res mpci :=
+  let wp := prec + 10 in
+  let '(c, s) := mpi_cos_sin_from (fst x) qa qb wp in
+  do chsh <- mpi_cosh_sinh_from (snd x) va vb wp;
+  let '(ch, sh) := chsh in
+  Ok (mpi_mul s ch prec, mpi_mul c sh prec).
